@@ -464,6 +464,12 @@ StreamAlive(c) ==
     /\ p.op = "StreamOpen" /\ p.sub \in DOMAIN smap /\ S[smap[p.sub]].st = "live"
     /\ smap[p.sub] \in SubLookups(Win(c), p.sub)
 
+QuietTag(isPull, abandoned) ==
+    CASE isPull /\ abandoned -> "C06,C15,C16"
+      [] isPull /\ ~abandoned -> "C06,C15"
+      [] ~isPull /\ abandoned -> "C06,C16"
+      [] OTHER -> "C06"
+
 LateGuards(e) ==
     { G("BIND", e.t >= now),
       G("C04", JudgeLate =>
@@ -558,6 +564,12 @@ EvGuards(e) ==
               G("C17", (e.opened /\ pend[e.c].ctrl # <<>> /\ pend[e.c].ctrl[Len(pend[e.c].ctrl)].mal
                           /\ ~RacedDeletion(W, p.sub)) => e.code = "INVALID_ARGUMENT"),
               G("C17", e.code \notin {"UNAVAILABLE", "UNKNOWN"}),
+              \* a rejected (malformed) control message changes no state: neither its acknowledgements
+              \* nor its modifications were carried out
+              G("C17", \A j \in 1..Len(pend[e.c].ctrl) :
+                          pend[e.c].ctrl[j].mal =>
+                              /\ (pend[e.c].ctrl[j].acks # <<>> => ~pend[e.c].ctrl[j].doneA)
+                              /\ (pend[e.c].ctrl[j].mods # <<>> => ~pend[e.c].ctrl[j].doneM)),
               G("C12", (e.opened /\ RacedDeletion(W, p.sub)) => ReleasedPromptly(W, p.sub, e.t)) }
       [] e.k = "ret" -> IF e.c \in DOMAIN pend THEN RetGuards(e.c, e) ELSE { G("BIND", FALSE) }
       [] e.k \in {"cancel", "lret"} -> {}
@@ -568,7 +580,8 @@ EvGuards(e) ==
             \* consumer that can take it is waiting on that subscription
             \* (when a consumer of that subscription was abandoned earlier, the stuck one is also a
             \* subscription wedged by an abandoned request: C16)
-            { G(IF \E g \in gone : g.op \in {"Pull", "StreamOpen"} /\ g.sub = pend[c].e.sub THEN "C06,C16" ELSE "C06",
+            \* (a blocked Pull that does not return although a message is available: C15 as well)
+            { G(QuietTag(pend[c].e.op = "Pull", \E g \in gone : g.op \in {"Pull", "StreamOpen"} /\ g.sub = pend[c].e.sub),
                     LET p == pend[c].e IN
                     (/\ (p.op = "Pull" /\ ~p.ri) \/ p.op = "StreamOpen"
                      /\ p.sub \in DOMAIN smap /\ S[smap[p.sub]].st = "live"
@@ -584,7 +597,11 @@ EvGuards(e) ==
             { G("C07", FALSE) } \cup
             (IF e.c \in DOMAIN pend /\ pend[e.c].e.op \in {"StreamOpen", "Pull"}
                 /\ RacedDeletion(Win(e.c), pend[e.c].e.sub)
-             THEN { G("C12", FALSE) } ELSE {})
+             THEN { G("C12", FALSE) } ELSE {}) \cup
+            \* a stream that received a malformed control message ends with INVALID_ARGUMENT
+            (IF e.c \in DOMAIN pend /\ pend[e.c].e.op = "StreamOpen"
+                /\ \E j \in 1..Len(pend[e.c].ctrl) : pend[e.c].ctrl[j].mal
+             THEN { G("C17", FALSE) } ELSE {})
       [] e.k = "panic" ->
             \* never a panic; a panic while a list call is being served also breaks "any decodable
             \* token yields a valid page"
